@@ -267,7 +267,7 @@ Proof. exact writable_cells_distinct. Qed.
 Theorem C13_writable_example :
   In ("req.hash_always_miss", "HashAlwaysMiss")%string (scope_cells "recv") /\
   In ("req.max_stale_if_error", "MaxStaleIfError")%string (scope_cells "recv") /\
-  In ("obj.response", "ObjectResponse")%string (scope_cells "error").
+  In ("obj.ttl", "ObjectTTL")%string (scope_cells "error").
 Proof. exact writable_example. Qed.
 
 (* TIME / IP / BACKEND / ACL are in the model as OPAQUE cells ([TOpaque k], [VOpaque k payload]): values the
@@ -282,6 +282,14 @@ Theorem C13_opaque_param_needs_copy :
   exists r σ', call original std_ops prog_fop 10 sub_fop [0%nat] σ_op = OK (r, σ') /\
                read σ' (NLocal 0) <> read σ_op (NLocal 0).
 Proof. exact param_alias_opaque_refutes. Qed.
+
+(* The ctx variables whose `set` writes another context field as well - the documented couplings: beresp.gzip and
+   beresp.brotli exclude each other, obj.response is mirrored into the response object - are exactly these in the
+   source, and none of them is among the simple cells the model and the generator use. *)
+Theorem C13_coupled_cells :
+  coupled = documented_couplings /\
+  forallb (fun c => negb (mem (fst (snd c)) (map fst (cells_of (fst c))))) coupled = true.
+Proof. exact (conj coupled_are_the_documented coupled_not_simple). Qed.
 
 (* witnesses: the analysis distinguishes writers *)
 Theorem C13_header_set_effects_example :
@@ -328,3 +336,4 @@ Print Assumptions C13_synthetic_frame.
 Print Assumptions C13_synthetic_example.
 Print Assumptions C13_opaque_example.
 Print Assumptions C13_opaque_param_needs_copy.
+Print Assumptions C13_coupled_cells.
